@@ -629,11 +629,20 @@ func WindowWhen[T, B any](boundary Observable[B]) func(Observable[T]) Observable
 		return NewObservableWithContext(func(subscriberCtx context.Context, destination Observer[Observable[T]]) Teardown {
 			var window Subject[T]
 
+			var closed bool // set by the terminal flush: no window is opened after it
+
 			mu := xsync.MutexWithSpinlock{}
 
 			flush := func(ctx context.Context, skipNew bool) {
 				// reset Observable even if no notification were sent
 				mu.Lock()
+
+				if closed {
+					// a boundary racing with the termination would otherwise open (and
+					// deliver) a window that nobody completes anymore
+					mu.Unlock()
+					return
+				}
 
 				tmp := window
 
@@ -641,6 +650,8 @@ func WindowWhen[T, B any](boundary Observable[B]) func(Observable[T]) Observable
 				if !skipNew {
 					newSubject = NewUnicastSubject[T](UnicastSubjectUnlimitedBufferSize)
 					window = newSubject
+				} else {
+					closed = true
 				}
 
 				mu.Unlock()
